@@ -139,8 +139,21 @@ func libEqual(a, b avro.Schema, path string) string {
 	return libEqual(x.Values, y.Values, path+"{}")
 }
 
+// the previous Marshal result is kept and re-examined after the next Marshal: serialising one schema
+// must not disturb the bytes returned for another
+var c14prev struct {
+	out, copy []byte
+	origin    string
+}
+
 func c14roundTrip(c *core.Ctx, s avro.Schema, origin string, text string) {
 	out, err := s.Marshal()
+	if c14prev.out != nil && string(c14prev.out) != string(c14prev.copy) {
+		c.Violate("marshal-invalid-json", fmt.Sprintf("the bytes returned by an earlier Marshal (schema from %s) changed when another schema was marshalled: now %q, were %q", c14prev.origin, trunc(string(c14prev.out), 200), trunc(string(c14prev.copy), 200)), map[string]any{"text": text})
+		c14prev.out = nil
+		return
+	}
+	c14prev.out, c14prev.copy, c14prev.origin = out, append([]byte{}, out...), origin
 	if err != nil {
 		c.Violate("marshal", fmt.Sprintf("Marshal failed for schema from %s: %v", origin, err), map[string]any{"text": text})
 		return
